@@ -83,6 +83,13 @@ def run(seed, ids):
         print(out); return 2
     try:
         rc, out = sh("git apply %s" % os.path.join(d, "patch.diff"), cwd=wt)
+        if rc != 0 and meta.get("base"):
+            # the change rewrites lines that a later `fix:` commit touched: it is replayed on the tree it was written against
+            # (a defect repaired since then is present there again and is reported along with the change)
+            print("SEED %s: does not apply to /repo HEAD; replaying on its recorded base %s" % (seed, meta["base"]))
+            sh("git checkout -q --detach %s" % meta["base"], cwd=wt)
+            # the hook commit is an ancestor of every base, nothing else is needed
+            rc, out = sh("git apply %s" % os.path.join(d, "patch.diff"), cwd=wt)
         if rc != 0:
             print("patch does not apply:", out); return 2
         for i in ids:
